@@ -268,6 +268,12 @@ func (e *G2) UnmarshalCompressed(data []byte) ([]byte, error) {
 		e.p.z.SetZero()
 		e.p.t.SetZero()
 	} else {
+		// when the tested coordinate of y is zero both roots have sign bit 0 and
+		// no point encodes with the other compression byte
+		montDecode(x3y, &e.p.y.y)
+		if byte(x3y[0]&1) != data[0]&1 {
+			return nil, errors.New("sm9.G2: malformed point")
+		}
 		e.p.z.SetOne()
 		e.p.t.SetOne()
 
